@@ -120,8 +120,17 @@ func genFTPUTF8(t *rapid.T) svc.Dialog {
 	add("USER "+utext(t, "user", asciiToken, 1, 10), false)
 	add("PASS "+utext(t, "pass", asciiToken, 1, 10), false)
 	n := rapid.IntRange(0, 5).Draw(t, "ncmd")
+	long := false
 	for i := 0; i < n; i++ {
 		verb := rapid.SampledFrom([]string{"SIZE", "MDTM", "DELE", "CWD", "RNFR", "XYZZY", "NOOP", "HELP"}).Draw(t, "verb")
+		if !long && rapid.IntRange(0, 5).Draw(t, "long") == 0 {
+			// one command line around / beyond the control reader's 4096-byte buffer: still one
+			// command, one event (seed C04-r5-1: ReadLine without isPrefix splits it)
+			long = true
+			n := rapid.SampledFrom([]int{4080, 4089, 4090, 4091, 4092, 4096, 4100, 5000, 8190, 8200, 9000}).Draw(t, "longlen")
+			add(verb+" "+strings.Repeat(rapid.StringMatching("[a-z0-9]{1,7}").Draw(t, "unit"), n)[:n], false)
+			continue
+		}
 		add(verb+" "+utext(t, "arg", asciiToken, 1, 14), false)
 	}
 	if rapid.Bool().Draw(t, "quit") {
